@@ -20,8 +20,8 @@ using namespace vf;
 #endif
 
 static const char *feat(int i) {
-  static const char *n[] = {"must_throw", "must_succeed_at_limit", "interior_position", "count_overflows_size_type_arithmetic", "non_trivial_element", "heap_backed", "at_out_of_range"};
-  return i < 7 ? n[i] : 0;
+  static const char *n[] = {"must_throw", "must_succeed_at_limit", "interior_position", "count_overflows_size_type_arithmetic", "non_trivial_element", "heap_backed", "at_out_of_range", "swap2_across_size_types"};
+  return i < 8 ? n[i] : 0;
 }
 
 enum GOp { G_PUSH_C, G_PUSH_M, G_EMPLACE_BACK, G_EMPLACE, G_INSERT_C, G_INSERT_M, G_INSERT_N, G_INSERT_RANGE_PTR, G_INSERT_RANGE_LIST, G_INSERT_RANGE_FWD, G_INSERT_ILIST,
@@ -272,6 +272,143 @@ static void run_vec(const char *name, long limit, bool is_fcv, const std::vector
   }
 }
 
+// counts that overflow the arithmetic of a wide size_type: size() + count exceeds the maximum although both operands are valid
+template <class V>
+static void wide_count_cases(const char *name) {
+  typedef typename V::value_type E;
+  typedef typename V::size_type ST;
+  const unsigned long long stmax = static_cast<unsigned long long>(std::numeric_limits<ST>::max());
+  static const long sizes[] = {1, 3, 10};
+  for (int si = 0; si < 3; ++si)
+    for (int op = 0; op < 3; ++op)
+      for (int ci = 0; ci < 4; ++ci)
+        for (int pi = 0; pi < (op == 0 ? 3 : 1); ++pi) {
+          const long size = sizes[si];
+          // smallest overflowing count, the maximum, one below it, and half the range plus the rest
+          const unsigned long long cnt = ci == 0 ? stmax - static_cast<unsigned long long>(size) + 1 : ci == 1 ? stmax : ci == 2 ? stmax - 1 : stmax - static_cast<unsigned long long>(size) / 2;
+          if (static_cast<unsigned long long>(size) + cnt <= stmax && cnt <= stmax - static_cast<unsigned long long>(size)) continue;
+          const long pos = pi == 0 ? 0 : pi == 1 ? size / 2 : size;
+          char key[220];
+          snprintf(key, sizeof key, "%s %s size=%ld pos=%ld count=max-%llu", name, op == 0 ? "insert(pos,n,v)" : op == 1 ? "append(n)" : "append(n,v)", size, pos, stmax - cnt);
+          if (!enum_begin(key)) continue;
+          ledgers_reset();
+          aledger_reset();
+          feature(0);
+          feature(3);
+          if (!std::is_trivially_copyable<E>::value) feature(4);
+          {
+            V c;
+            for (long k = 0; k < size; ++k) c.emplace_back(static_cast<int>(k + 1));
+            const long cap0 = static_cast<long>(c.capacity());
+            const E *data0 = c.data();
+            const uint32_t live0 = cells().live, blocks0 = aledger().outstanding;
+            bool threw = false, right = false;
+            try {
+              E tmp(ET<E>::make(7));
+              const E &ref = tmp;
+              if (op == 0) c.insert(c.begin() + pos, static_cast<ST>(cnt), ref);
+              else if (op == 1) c.append(static_cast<ST>(cnt));
+              else c.append(static_cast<ST>(cnt), ref);
+            } catch (const std::overflow_error &) {
+              threw = right = true;
+            } catch (...) {
+              threw = true;
+            }
+            if (!threw) violation(P08, "did not throw although size() + count exceeds the maximum of size_type (the sum wrapped around)");
+            else if (!right) violation(P08, "threw another exception type than std::overflow_error");
+            if (!failed() && (static_cast<long>(c.size()) != size || static_cast<long>(c.capacity()) != cap0 || c.data() != data0)) violation(P08, "failed call changed size, capacity or data()");
+            for (long k = 0; k < size && !failed(); ++k)
+              if (val_of(c[static_cast<ST>(k)]) != k + 1) violation(P08, "failed call changed element %ld", k);
+            if (!failed() && ET<E>::tracked && cells().live != live0) violation(P08 | P02, "failed call leaked element value(s)");
+            if (!failed() && aledger().outstanding != blocks0) violation(P08 | P06, "failed call changed the number of outstanding blocks");
+            if (!failed()) {
+              c.emplace_back(5);
+              if (static_cast<long>(c.size()) != size + 1) violation(P08, "vector unusable after the failed call");
+            }
+            if (failed()) new (&c) V();
+          }
+          if (!failed() && (cells().live != 0 || aledger().outstanding != 0)) violation(P08 | P02, "leak after destruction");
+          enum_end(true);
+        }
+}
+
+// swap2 between vectors of different size types: the narrow one cannot take more elements than its size_type can count
+template <class Narrow, class Wide>
+static void swap2_limit_cases(const char *name, bool narrow_is_fcv) {
+  typedef typename Narrow::value_type E;
+  typedef typename Narrow::size_type NST;
+  typedef typename Wide::size_type WST;
+  const long limit = narrow_is_fcv ? static_cast<long>(Narrow::kInlineCapacity) : static_cast<long>(std::numeric_limits<NST>::max());
+  static const long deltas[] = {-2, -1, 0, 1, 2, 45};
+  static const long nsizes[] = {0, 1, 3};
+  for (int di = 0; di < 6; ++di)
+    for (int ni = 0; ni < 3; ++ni)
+      for (int dir = 0; dir < 2; ++dir) {
+        const long wsize = limit + deltas[di], nsize = std::min(nsizes[ni], limit);
+        if (wsize < 0 || static_cast<unsigned long long>(wsize) > static_cast<unsigned long long>(std::numeric_limits<WST>::max())) continue;
+        char key[220];
+        snprintf(key, sizeof key, "%s %s narrow_size=%ld wide_size=%ld", name, dir == 0 ? "narrow.swap2(wide)" : "wide.swap2(narrow)", nsize, wsize);
+        if (!enum_begin(key)) continue;
+        ledgers_reset();
+        aledger_reset();
+        const bool must_throw = wsize > limit;
+        feature(must_throw ? 0 : 1);
+        feature(7);
+        if (!std::is_trivially_copyable<E>::value) feature(4);
+        {
+          Narrow a;
+          Wide b;
+          for (long k = 0; k < nsize; ++k) a.emplace_back(static_cast<int>(100 + k));
+          for (long k = 0; k < wsize; ++k) b.emplace_back(static_cast<int>(k % 90));
+          const long acap = static_cast<long>(a.capacity()), bcap = static_cast<long>(b.capacity());
+          const uint32_t live0 = cells().live;
+          bool threw = false, right = false;
+          try {
+            if (dir == 0) a.swap2(b);
+            else b.swap2(a);
+          } catch (const std::out_of_range &) {
+            threw = true;
+            right = narrow_is_fcv;
+          } catch (const std::overflow_error &) {
+            threw = true;
+            right = !narrow_is_fcv;
+          } catch (...) {
+            threw = true;
+          }
+          if (must_throw) {
+            if (!threw) violation(P08, "swap2 did not throw although the narrow vector cannot hold %ld elements (limit %ld)", wsize, limit);
+            else if (!right) violation(P08, "swap2 threw the wrong exception type");
+            if (!failed() && (static_cast<long>(a.size()) != nsize || static_cast<long>(b.size()) != wsize)) violation(P08, "failed swap2 changed a size (%ld, %ld)", static_cast<long>(a.size()), static_cast<long>(b.size()));
+            if (!failed() && (static_cast<long>(a.capacity()) != acap || static_cast<long>(b.capacity()) != bcap)) violation(P08, "failed swap2 changed a capacity");
+            for (long k = 0; k < nsize && !failed(); ++k)
+              if (val_of(a[static_cast<NST>(k)]) != 100 + k) violation(P08, "failed swap2 changed an element of the narrow vector");
+            for (long k = 0; k < wsize && !failed(); ++k)
+              if (val_of(b[static_cast<WST>(k)]) != k % 90) violation(P08, "failed swap2 changed an element of the wide vector");
+            if (!failed() && ET<E>::tracked && cells().live != live0) violation(P08 | P02, "failed swap2 leaked or lost element value(s)");
+          } else {
+            if (threw) violation(P08, "swap2 threw although %ld elements fit the narrow vector (limit %ld)", wsize, limit);
+            if (!failed() && (static_cast<long>(a.size()) != wsize || static_cast<long>(b.size()) != nsize)) violation(P08 | P01, "swap2 sizes are (%ld, %ld)", static_cast<long>(a.size()), static_cast<long>(b.size()));
+            for (long k = 0; k < wsize && !failed(); ++k)
+              if (val_of(a[static_cast<NST>(k)]) != k % 90) violation(P08 | P01, "swap2 lost an element");
+            for (long k = 0; k < nsize && !failed(); ++k)
+              if (val_of(b[static_cast<WST>(k)]) != 100 + k) violation(P08 | P01, "swap2 lost an element");
+          }
+          if (!failed()) {
+            a.clear();
+            a.emplace_back(1);
+            b.emplace_back(2);
+            if (a.size() != 1) violation(P08, "narrow vector unusable after swap2");
+          }
+          if (failed()) {
+            new (&a) Narrow();
+            new (&b) Wide();
+          }
+        }
+        if (!failed() && (cells().live != 0 || shells().live != 0 || aledger().outstanding != 0)) violation(P08 | P02, "leak after destruction");
+        enum_end(deltas[di] >= -1 && deltas[di] <= 2);
+      }
+}
+
 template <class E>
 static void run_elem(const char *en) {
   std::string n(en);
@@ -304,6 +441,16 @@ static void run_elem(const char *en) {
     unsigned long mask = big ? ~0ul : ((1ul << G_PUSH_C) | (1ul << G_INSERT_N) | (1ul << G_APPEND_NV) | (1ul << G_RESIZE) | (1ul << G_EMPLACE));
     run_vec<amc::vector<E, AStd<E>, uint16_t> >((n + "/vector<u16>").c_str(), 65535, false, sz, false, mask);
   }
+  wide_count_cases<amc::vector<E, AStd<E>, uint32_t> >((n + "/vector<u32>").c_str());
+  wide_count_cases<amc::SmallVector<E, 4, ARe<E>, uint32_t> >((n + "/SmallVector<4,u32>").c_str());
+  wide_count_cases<amc::SmallVector<E, 16, AAmc<E>, int32_t> >((n + "/SmallVector<16,i32>").c_str());
+  wide_count_cases<amc::vector<E, AStd<E>, uint64_t> >((n + "/vector<u64>").c_str());
+  swap2_limit_cases<amc::vector<E, AStd<E>, uint8_t>, amc::vector<E, AStd<E>, uint32_t> >((n + "/vector<u8> x vector<u32>").c_str(), false);
+  swap2_limit_cases<amc::SmallVector<E, 4, AStd<E>, int8_t>, amc::SmallVector<E, 2, AStd<E>, uint16_t> >((n + "/SmallVector<4,i8> x SmallVector<2,u16>").c_str(), false);
+  swap2_limit_cases<amc::vector<E, ARe<E>, uint8_t>, amc::SmallVector<E, 3, ARe<E>, uint8_t> >((n + "/vector<u8> x SmallVector<3,u8>").c_str(), false);
+  swap2_limit_cases<amc::SmallVector<E, 5, AAmc<E>, uint8_t>, amc::vector<E, AAmc<E>, uint64_t> >((n + "/SmallVector<5,u8> x vector<u64>").c_str(), false);
+  swap2_limit_cases<amc::FixedCapacityVector<E, 6>, amc::vector<E, AStd<E>, uint32_t> >((n + "/FixedCapacityVector<6> x vector<u32>").c_str(), true);
+  swap2_limit_cases<amc::FixedCapacityVector<E, 255>, amc::SmallVector<E, 3, AStd<E>, uint16_t> >((n + "/FixedCapacityVector<255> x SmallVector<3,u16>").c_str(), true);
   if (big) {
     std::vector<long> sz;
     sz.push_back(298);
